@@ -3,6 +3,7 @@
   Property theorems only; helper lemmas live in `SonicModel/Lemmas`.
 -/
 import SonicModel.Lemmas.SkipMain
+import SonicModel.Lemmas.EntryIff
 import SonicModel.Impl.Entry
 namespace Sonic.Thm.C02
 open Sonic Gen
@@ -15,6 +16,22 @@ theorem skipOne_eq_spec (buf : Buf) (f i : Nat)
     (hne : Impl.skipOne buf.size f buf i ≠ .fuel) :
     ∃ g, Spec.value false g buf (skipWs buf i) = (Impl.skipOne buf.size f buf i).erase :=
   (skip_refine buf f i).1 hne
+
+/-- **Whole inputs, as an equivalence.**  The model of `from_slice::<LazyValue>` (the same
+    composition serves `IgnoredAny` and the strict `OwnedLazyValue`: `skip_one`, `parse_trailing`,
+    `check_utf8_final`) accepts a byte string iff it is valid UTF-8 and one RFC 8259 value
+    surrounded by nothing but whitespace. -/
+theorem lazy_accept_iff (buf : Buf) :
+    (∃ s e, Impl.lazyFrom true buf = .accept s e) ↔
+      (Spec.utf8Valid buf = true ∧ (Spec.document false buf).isSome = true) :=
+  lazyFrom_accept_iff buf
+
+/-- at the canonical fuel `3·len + 6` the recogniser model never runs out of fuel and equals the
+    specification at its canonical fuel: an equation, no side condition -/
+theorem skipOne_canonical (buf : Buf) (i : Nat) :
+    (Impl.skipOne buf.size (Impl.fuelFor buf) buf i).erase =
+      Spec.value false (Spec.fuelFor buf) buf (skipWs buf i) :=
+  skipOne_eq_value buf i
 
 /-- accept side, spelled out: an accepted input is grammatical up to the returned offset -/
 theorem skipOne_sound (buf : Buf) (f i e : Nat)
